@@ -268,3 +268,89 @@ Example C01_struct_roundtrip_run :
   xunser [("yes", true)] (fun _ _ => None) 3 xf_env xf_obj v = Ok n /\
   xserialize [("yes", true)] (fun _ _ => None) 3 xf_env xf_obj n = Ok (VMap t_str_map false [(vstr "on", vbool true)]).
 Proof. exact x_struct_roundtrip_flags_run. Qed.
+
+(* ====================================================================================================
+   Struct-mapped objects, the THIRD conjunct (Proofs/XRoundFull.v, XRoundFullEx.v): C01_struct_roundtrip, the FULL
+   statement announced above.  Re-Unserialize of the serialized form succeeds (at the fuel of the first Unserialize
+   and at every larger one) and gives the value back up to treat-empty-as-default:
+     xstruct_sim e props si n n'  :=  both are values of the struct type T and every property has the same
+                                      value (xfield_value: absent / present with value x) in n and in n'
+   (plain `=` is not available: a pointer field holding an empty value of a treat-empty-as-default property comes
+   back as a nil pointer; C01_struct_sim_serialize: n and n' have the same Validate verdict and the same serialized
+   form, so n' is the normal form of n in the sense of C01_roundtrip's "re-serializing gives w again").
+   Hypotheses: those of C01_struct_roundtrip_partial, with the children hypothesis in three parts (xchildren_rt:
+   reflected type / Validate / Serialize as before, PLUS the serialized property value unserializes back to the same
+   value, PLUS a treat-empty-as-default property contributes no sub-object defaults when absent), and the boolean
+   `xempty_nodefault` (a treat-empty-as-default property has no decodable default).  The latter is NECESSARY
+   (C01_struct_roundtrip_emptydefault_refuted): with a default, an explicitly supplied empty value is dropped by
+   Serialize and comes back as the default. *)
+From Verif Require Import Proofs.XRoundFull Proofs.XRoundFullEx.
+
+Theorem C01_struct_roundtrip : forall words pu f f' f'' e id u props si v n,
+  xrt_desc e props si = true -> xempty_nodefault e props = true -> raw_keys_unique v = true ->
+  xchildren_rt words pu f f' e props -> (S f <= f'')%nat ->
+  xunser words pu (S f) e (XObject id u props (Some si)) v = Ok n ->
+  xvalidate words pu (S f') e (XObject id u props (Some si)) n = Ok tt /\
+  exists w, xserialize words pu (S f') e (XObject id u props (Some si)) n = Ok w /\
+    exists n', xunser words pu f'' e (XObject id u props (Some si)) w = Ok n' /\ xstruct_sim e props si n n'.
+Proof. exact x_struct_roundtrip_fuel. Qed.
+Print Assumptions C01_struct_roundtrip.
+
+(* the three-part children hypothesis discharged (boolean property types): XFlags, every raw value, every fuel *)
+Theorem C01_struct_roundtrip_full_instance : forall words pu f f' f'' v n,
+  raw_keys_unique v = true -> (S (S f) <= f'')%nat ->
+  xunser words pu (S (S f)) xf_env xf_obj v = Ok n ->
+  xvalidate words pu (S (S f')) xf_env xf_obj n = Ok tt /\
+  exists w, xserialize words pu (S (S f')) xf_env xf_obj n = Ok w /\
+    exists n', xunser words pu f'' xf_env xf_obj w = Ok n' /\ xstruct_sim xf_env xf_props xf_si n n'.
+Proof. exact x_struct_roundtrip_flags_full. Qed.
+Print Assumptions C01_struct_roundtrip_full_instance.
+
+Example C01_struct_roundtrip_full_run :
+  let v := VMap t_any_map false [(vstr "on", vstr "yes"); (vstr "zero", vbool false)] in
+  let n := VStruct (TStruct "XFlags") [("On", vbool true); ("Opt", VPtr (TPtr TBool) None); ("Zero", vbool false)] in
+  let w := VMap t_str_map false [(vstr "on", vbool true)] in
+  xunser [("yes", true)] (fun _ _ => None) 3 xf_env xf_obj v = Ok n /\
+  xserialize [("yes", true)] (fun _ _ => None) 3 xf_env xf_obj n = Ok w /\
+  xunser [("yes", true)] (fun _ _ => None) 3 xf_env xf_obj w = Ok n.
+Proof. exact x_struct_roundtrip_flags_full_run. Qed.
+
+(* XInner{A int64 `a` default 1; B string `b` treat-empty-as-default}: the boolean hypotheses hold; the default fills `a`,
+   the supplied empty `b` is dropped by Serialize, re-Unserialize gives the struct back *)
+Example C01_struct_roundtrip_inner_run :
+  let e := xs_env xs_tab in
+  let v := xs_m [("b", vstr "")] in
+  let n := xs_inner_v 1 "" in
+  let w := VMap t_str_map false [(vstr "a", vi64 1)] in
+  xrt_desc e xs_inner_props xs_inner_si = true /\ xempty_nodefault e xs_inner_props = true /\
+  raw_keys_unique v = true /\
+  xunser w_words w_pu 5 e xs_inner v = Ok n /\
+  xvalidate w_words w_pu 5 e xs_inner n = Ok tt /\
+  xserialize w_words w_pu 5 e xs_inner n = Ok w /\
+  xunser w_words w_pu 5 e xs_inner w = Ok n.
+Proof. exact x_struct_roundtrip_inner_run. Qed.
+
+(* xempty_nodefault is necessary (FINDING to replay on the SDK): `a` treat-empty-as-default AND default 1; {a: 0} -> A = 0
+   -> {} -> A = 1 *)
+Theorem C01_struct_roundtrip_emptydefault_refuted :
+  exists (e : xenv) (v n w n' : gval),
+    xrt_desc e xs_bad_props xs_inner_si = true /\ xempty_nodefault e xs_bad_props = false /\
+    raw_keys_unique v = true /\
+    xunser w_words w_pu 5 e xs_bad v = Ok n /\
+    xvalidate w_words w_pu 5 e xs_bad n = Ok tt /\
+    xserialize w_words w_pu 5 e xs_bad n = Ok w /\
+    xunser w_words w_pu 5 e xs_bad w = Ok n' /\
+    n' <> n /\ ~ xstruct_sim e xs_bad_props xs_inner_si n n'.
+Proof. exact x_struct_roundtrip_emptydefault_refuted. Qed.
+Print Assumptions C01_struct_roundtrip_emptydefault_refuted.
+
+(* xstruct_sim is indistinguishable to Validate and Serialize: n' (the re-unserialized value) has the Validate verdict of n
+   and the SAME serialized form w — with C01_struct_roundtrip: Unserialize (Serialize n') = n' exactly, n' is the normal form of n *)
+Theorem C01_struct_sim_serialize : forall words pu f e id u props si n n',
+  xrt_desc e props si = true -> xstruct_sim e props si n n' ->
+  (xvalidate words pu (S f) e (XObject id u props (Some si)) n = Ok tt ->
+   xvalidate words pu (S f) e (XObject id u props (Some si)) n' = Ok tt) /\
+  (forall w, xserialize words pu (S f) e (XObject id u props (Some si)) n = Ok w ->
+             xserialize words pu (S f) e (XObject id u props (Some si)) n' = Ok w).
+Proof. exact x_struct_sim_paths. Qed.
+Print Assumptions C01_struct_sim_serialize.
